@@ -2,7 +2,7 @@
 C16, last sentence: "the step/alteration arithmetic used for chord roots agrees with the same diatonic arithmetic".
 Model: PartituraModel/Model/RomanRoot.lean (`RomanNumeral.find_root_note`), tables regenerated from the source.
 -/
-import PartituraModel.Model.RomanRoot
+import PartituraModel.Model.LocalKey
 
 namespace C16Roman
 open Model Gen
@@ -28,7 +28,7 @@ def keyNames : List String :=
 /-- the accidental of a key name is read AFTER its step letter: "b" is B minor (no flat), "bb" B flat minor -/
 theorem key_name_parsed :
     ∀ k ∈ keyNames, keyStep k = k.toList.head? ∧
-      keyAlter k = (match k.toList.drop 1 with | ['#'] => 1 | ['b'] => -1 | _ => 0) := by
+      keyAlter k = some (match k.toList.drop 1 with | ['#'] => 1 | ['b'] => -1 | _ => 0) := by
   decide +kernel
 
 def pcOf (s : String) (a : Int) : Option Int := (lookup s BASE_PC).map fun b => (b + a) % 12
@@ -78,5 +78,138 @@ theorem root_is_two_transpositions (lk p s : String) :
 example : romanRoot "a" "V" "III" = some ("G", 0) ∧ romanRoot "A" "V" "III" = some ("G", 1) ∧
     romanRoot "f#" "viio" "VI" = some ("C", 1) ∧ romanRoot "b" "V" "i" = some ("F", 1) ∧
     romanRoot "bb" "V" "i" = some ("F", 0) := by decide
+
+/-! ## Round 5: the complete chord-root / local-key arithmetic (Model/LocalKey.lean) -/
+
+def steps14 : List String := steps7 ++ steps7.map lower
+
+/-- **partitura reads back the names it writes** (fix C16-4): a step letter followed by the accidental as INT_TO_ALT
+    spells it ("-", "--", "#", "##") is parsed to that step and that alteration — for every step, both cases, the
+    whole regenerated table -/
+theorem key_name_roundtrip :
+    ∀ s ∈ steps14, ∀ e ∈ INT_TO_ALT, keyStepAlter (s ++ e.2) = some (s, e.1) := by
+  decide +kernel
+
+/-- the key names the arithmetic is checked on: every step, both modes, written with "#", "b" or "-" -/
+def keyNamesDash : List String :=
+  steps14.flatMap fun s => [s, s ++ "#", s ++ "b", s ++ "-"]
+
+/-- the local keys of DCML: the seven degrees in both cases, plain, lowered, raised -/
+def localDegrees : List String :=
+  (["i", "ii", "iii", "iv", "v", "vi", "vii"].flatMap fun d => [d, upper d]).flatMap fun d => [d, "b" ++ d, "#" ++ d]
+
+def sharpsMinusFlats (loc : String) : Int := (countChar '#' loc : Int) - (countChar 'b' loc : Int)
+
+/-- one `process_local_key` call against scale arithmetic: the new tonic stands (number − 1) steps above the old one
+    and (size of the scale degree's interval + sharps − flats) semitones above it, the degree being read in the
+    table of the mode of the global key -/
+def localKeyOK (loc glob : String) : Bool :=
+  match processLocalKey loc glob true with
+  | some (.stepAlter s a) =>
+    match keyStepAlter glob,
+          lookup (lower (String.ofList (loc.toList.filter fun c => !(c = '#' || c = 'b'))))
+            (if pyIsLower glob then DCML_MINOR else DCML_MAJOR) with
+    | some (ks, ka), some (num, qual) =>
+      match idxOf (upper ks), pcOf (upper ks) ka, lookup (qual ++ showNat num) INTERVAL_TO_SEMITONES with
+      | some i, some pc, some sz =>
+        decide (idxOf s = some ((i + num - 1) % 7)) &&
+        decide (pcOf s a = some ((pc + sz + sharpsMinusFlats loc) % 12))
+      | _, _, _ => false
+    | _, _ => false
+  | some (.name _) => false
+  | none => true
+
+theorem local_key_is_scale_arithmetic :
+    ∀ glob ∈ keyNamesDash, ∀ loc ∈ localDegrees, localKeyOK loc glob = true := by
+  decide +kernel
+
+/-- the NAME `process_local_key` returns denotes the (step, alteration) it returns with `return_step_alter`, in
+    the case of the local degree — also when the name is the global key handed back unchanged — so that a local
+    key of a local key (the importer's "V/bIII") is computed from the right tonic (fix C16-4) -/
+def localKeyNameOK (loc glob : String) : Bool :=
+  match processLocalKey loc glob true, processLocalKey loc glob false with
+  | some (.stepAlter s a), some (.name nm) =>
+    decide ((keyStepAlter nm).map (fun x => (upper x.1, x.2)) = some (s, a)) &&
+    decide (pyIsLower nm = pyIsLower (String.ofList (loc.toList.filter fun c => !(c = '#' || c = 'b'))))
+  | none, none => true
+  | _, _ => false
+
+def namesOver (steps : List String) : List String := steps.flatMap fun s => [s, s ++ "#", s ++ "b", s ++ "-"]
+
+theorem local_key_name_denotes_its_tonic_major :
+    ∀ glob ∈ namesOver steps7, ∀ loc ∈ localDegrees, localKeyNameOK loc glob = true := by
+  decide +kernel
+
+theorem local_key_name_denotes_its_tonic_minor :
+    ∀ glob ∈ namesOver (steps7.map lower), ∀ loc ∈ localDegrees, localKeyNameOK loc glob = true := by
+  decide +kernel
+
+/-- the regenerated root → bass intervals are chord tones: the third is minor for a lower-case numeral and major for
+    an upper-case one, the fifth perfect, the seventh minor -/
+theorem bass_intervals_table :
+    BASS_INTERVALS = [((1, true), "m", 3), ((1, false), "M", 3), ((2, true), "P", 5), ((2, false), "P", 5),
+      ((3, true), "m", 7), ((3, false), "m", 7)] := by decide +kernel
+
+/-- every root name `find_root_note` can write: step (either case) + INT_TO_ALT accidental -/
+def rootNames : List String := steps14.flatMap fun s => INT_TO_ALT.map fun e => s ++ e.2
+
+/-- **the bass note is the chord tone above the root AS SPELLED** (fix C16-4: a root "B-" is B flat): its step lies
+    number − 1 places above the root's, its pitch class the interval's size above the root's -/
+def bassOK (root : String) (e : (Nat × Bool) × String × Nat) : Bool :=
+  match findBassNote root e.1.1 (if e.1.2 then "i" else "I"), keyStepAlter root with
+  | some bass, some (rs, ra) =>
+    match keyStepAlter bass, idxOf (upper rs), pcOf (upper rs) ra, lookup (e.2.1 ++ showNat e.2.2) INTERVAL_TO_SEMITONES with
+    | some (bs, ba), some i, some pc, some sz =>
+      decide (idxOf bs = some ((i + e.2.2 - 1) % 7)) && decide (pcOf bs ba = some ((pc + sz) % 12))
+    | _, _, _, _ => false
+  | none, some _ => true      -- the bass would need a triple accidental: `transpose_note` refuses
+  | _, none => false
+
+theorem bass_is_chord_tone_above_spelled_root :
+    ∀ root ∈ rootNames, ∀ e ∈ BASS_INTERVALS, bassOK root e = true := by
+  decide +kernel
+
+/-- **the fallback of `find_root_note` agrees with its tables** (fix C16-5): the chord on the lowered second degree,
+    written "bII" (not in the tables: `process_local_key` path), has the root of the Neapolitan "N" (table path) in
+    every key — also in keys whose tonic carries an accidental — up to the case of the letter -/
+def neapolitanOK (lk sec : String) : Bool :=
+  match findRootNote lk "bII" sec, findRootNote lk "N" sec with
+  | some a, some b => decide (upper a = upper b)
+  | none, none => true
+  | _, _ => false
+
+theorem fallback_root_agrees_with_table :
+    ∀ lk ∈ keyNamesDash, ∀ sec ∈ ["I", "i", "V", "IV", "iv", "III", "VI"], neapolitanOK lk sec = true := by
+  decide +kernel
+
+/-- on the table path `find_root_note` is `romanRoot` (the function of the earlier theorems) written as a name -/
+theorem find_root_note_table_path (lk p s : String)
+    (hs : (romanInterval (pyIsLower lk) s).isSome) (hp : (romanInterval (pyIsLower s) p).isSome) :
+    findRootNote lk p s = (romanRoot lk p s).bind fun r => (lookup r.2 INT_TO_ALT).map fun alt => r.1 ++ alt := by
+  obtain ⟨i1, h1⟩ := Option.isSome_iff_exists.mp hs
+  obtain ⟨i2, h2⟩ := Option.isSome_iff_exists.mp hp
+  unfold findRootNote romanRoot appliedTonic keyStepAlter
+  cases hk : keyStep lk with
+  | none => simp
+  | some st =>
+    cases ha : keyAlter lk with
+    | none => simp
+    | some ka =>
+      simp only [h1, h2, Option.bind_eq_bind, Option.bind_some, Option.pure_def]
+      cases transposeNoteNoOctave (String.singleton st) ka i1.1 i1.2 with
+      | none => rfl
+      | some t =>
+        simp only [Option.bind_some]
+        cases transposeNoteNoOctave t.1 t.2 i2.1 i2.2 with
+        | none => rfl
+        | some r => rfl
+
+/-- non-vacuity: IV of F is written "B-" and read back as B flat: V in that key is F, its first inversion has the
+    bass A; the Neapolitan of E flat is F flat; V of bIII of C is B flat -/
+example : processLocalKey "IV" "F" false = some (.name "B-") ∧ findRootNote "B-" "V" "I" = some "F" ∧
+    findBassNote "F" 1 "V" = some "A" ∧ findRootNote "F" "IV" "I" = some "B-" ∧ findBassNote "B-" 1 "IV" = some "D" ∧
+    findRootNote "Eb" "bII" "I" = some "F-" ∧
+    (processLocalKey "bIII" "C" false).bind (fun r => match r with
+      | .name k => processLocalKey "V" k false | _ => none) = some (.name "B-") := by decide +kernel
 
 end C16Roman
